@@ -5,6 +5,7 @@ import KitProofs.Lemmas.SpiffeRenew
 import KitProofs.Lemmas.SpiffeSim
 import KitProofs.Lemmas.SpiffeDelta
 import KitProofs.Lemmas.SpiffeErr
+import KitProofs.Lemmas.SpiffeCtx
 /-!
 Property C19 — SPIFFE: readiness never deadlocks; the latest good SVID is served and renewed at
 half-life.  Theorems about the models in `KitModel/Spiffe.lean` (helpers in
@@ -316,6 +317,125 @@ theorem getsvid_before_run_witness :
 /-- The same schedule in the repaired code is not stuck: the first theorem applies to it. -/
 example : ∃ s, Reach .fixed init s ∧ s.run = .pendLock ∧ s.cons = [.gCall] :=
   ⟨_, .tail .run (.tail .run (.tail .callRun (.tail .callGet (.refl _) rfl) rfl) rfl) rfl, rfl, rfl⟩
+
+/-! ## Run's own context is a state component (round 5 follow-up)
+
+`St.runCtx` says whether the context given to `Run` is done; the environment label `Lbl.cancelRun` sets
+it in ANY state — before `Run` is called, while `Run` waits for the lock, while the initial request is
+outstanding at the issuer (the state the initial-fetch transition `reply ok` starts from), right after
+the issuer returned, while `Run` still holds the write lock, later.  `Reach` quantifies over all labels,
+so every theorem above (`ready_no_deadlock`, `results_correct`, …) already holds with Run's ctx ending at
+any of these moments; the theorems below say explicitly what that means for `readyCh`. -/
+
+/-- **`readyCh` is closed on every path on which the initial fetch finishes — whatever the state of
+Run's context** (either variant, any interleaving, any callers, `cancelRun` at any moment).  In every
+reachable state:
+1. if the initial fetch has finished with outcome `b`, statements of the Run goroutine ALONE (at most
+   two: `currentSVID = …`, `close(readyCh)`; Run holds the write lock, neither waits for anything) lead to
+   a state with `readyCh` closed, the outcome, the consumers and the state of Run's ctx unchanged;
+2. if moreover Run no longer holds the write lock — it returned the error (`retErr`), it is in the
+   rotation loop, it returned nil — `readyCh` IS closed; in particular `Run` never returns with it open;
+3. `readyCh` closed ⇒ the initial fetch has finished (nothing is signalled early);
+4. the issuer's answer to the initial request is a transition from the state with Run's ctx done just as
+   from the one with it alive, with either answer, and does not touch it: a successful answer that arrives
+   after the shutdown is installed and served like any other, a failed one is reported by `GetX509SVID`
+   as "no SVID available".
+Together with `ready_no_deadlock` (same reachable states): once the initial fetch has finished every
+`Ready` / `GetX509SVID` call returns, with the SVID iff it succeeded. -/
+theorem ready_closed_once_initial_fetch_finished {v : Variant} {s : St} (hreach : Reach v init s) :
+    (∀ b, s.init = some b →
+      ∃ t, RunPath v s t ∧ t.ready = true ∧ t.init = some b ∧ t.cons = s.cons ∧ t.runCtx = s.runCtx) ∧
+    (s.init.isSome = true → s.wHeld = false → s.ready = true) ∧
+    ((s.run = .retErr ∨ s.run = .stopped) → s.ready = true) ∧
+    (s.ready = true → s.init.isSome = true) ∧
+    (s.run = .fetch → ∀ ok, ∃ t, step v s (.reply ok) = some t ∧ t.init = some ok ∧ t.runCtx = s.runCtx ∧
+      t.ready = false) := by
+  have hb : BaseInv s := baseInv_reach baseInv_init hreach
+  refine ⟨fun b hi => close_by_run_alone hb hi, ready_of_init_unlocked hb, ?_, init_of_ready hb, ?_⟩
+  · intro hr
+    rw [hb.ready]
+    rcases hr with hr | hr <;> rw [hr] <;> rfl
+  · intro hr ok
+    have hnr : s.ready = false := by rw [hb.ready, hr]; rfl
+    cases ok
+    · exact ⟨{ s with nfetch := s.nfetch + 1, init := some false, run := .closeErr },
+        by simp [step, replyStep, hr], rfl, rfl, hnr⟩
+    · exact ⟨{ s with nfetch := s.nfetch + 1, init := some true, good := s.nfetch :: s.good, run := .setSvid s.nfetch },
+        by simp [step, replyStep, hr], rfl, rfl, hnr⟩
+
+/-- Non-vacuity, the three moments of the seeded change's neighbourhood: Run's ctx is done (a) before
+`Run` is called, (b) while the initial request is in flight, (c) right after the issuer returned an
+error — each with a `GetX509SVID` and a `Ready` caller already waiting. -/
+example : ∃ s, Reach .fixed init s ∧ s.run = .fetch ∧ s.runCtx = true ∧ s.cons = [.gCall, .yWait] :=
+  ⟨_, .tail .run (.tail .run (.tail .run (.tail .callRun (.tail .callReady (.tail .callGet
+    (.tail .cancelRun (.refl _) rfl) rfl) rfl) rfl) rfl) rfl) rfl, rfl, rfl, rfl⟩
+example : ∃ s, Reach .fixed init s ∧ s.run = .fetch ∧ s.runCtx = true ∧ s.cons = [.gCall, .yWait] :=
+  ⟨_, .tail .cancelRun (.tail .run (.tail .run (.tail .run (.tail .callRun (.tail .callReady (.tail .callGet
+    (.refl _) rfl) rfl) rfl) rfl) rfl) rfl) rfl, rfl, rfl, rfl⟩
+example : ∃ s, Reach .fixed init s ∧ s.run = .closeErr ∧ s.runCtx = true ∧ s.init = some false ∧
+    s.ready = false ∧ s.cons = [.gCall, .yWait] :=
+  ⟨_, .tail .cancelRun (.tail (.reply false) (.tail .run (.tail .run (.tail .run (.tail .callRun
+    (.tail .callReady (.tail .callGet (.refl _) rfl) rfl) rfl) rfl) rfl) rfl) rfl) rfl, rfl, rfl, rfl, rfl, rfl⟩
+
+/-- … and from the first of them, with the issuer returning an error (e.g. the ctx's own), every call
+returns: `GetX509SVID` with the error, `Ready` with nil (instance of `ready_no_deadlock`). -/
+example : ∃ s, Reach .fixed init s ∧ s.runCtx = true ∧ s.cons = [.gCall, .yWait] ∧
+    ∃ t, IntPath .fixed false s t ∧ t.init = some false ∧
+      t.cons[0]? = some (.gDone none) ∧ t.cons[1]? = some (.yDone true) := by
+  have hreach : Reach .fixed init
+      { running := true, wHeld := true, run := .fetch, cons := [.gCall, .yWait], runCtx := true } :=
+    .tail .run (.tail .run (.tail .run (.tail .callRun (.tail .callReady (.tail .callGet
+      (.tail .cancelRun (.refl _) rfl) rfl) rfl) rfl) rfl) rfl) rfl
+  refine ⟨_, hreach, rfl, rfl, ?_⟩
+  obtain ⟨t, hp, _, _, hnone, _, hy, _, hg⟩ := ready_no_deadlock hreach (by simp) false
+  have hinit : t.init = some false := by
+    obtain ⟨r, hr, hri⟩ := hg 0 .gCall rfl rfl
+    rcases hnone rfl with h | h
+    · rw [h] at hri; cases hri
+    · exact h
+  refine ⟨t, hp, hinit, ?_, hy 1 rfl⟩
+  obtain ⟨r, hr, hri⟩ := hg 0 .gCall rfl rfl
+  rw [hinit] at hri
+  cases r with
+  | none => exact hr
+  | some w => simp at hri
+
+open Kit.Generated.C19 in
+/-- T1 for the above (regenerated on this run): the statements `Run` executes in the source — ONE error
+branch, unconditional, beginning with `close(readyCh)` (factgen aborts on any other statement in it, e.g.
+a nested `if ctx.Err() != nil { … return }`) — are the ones the LTS executes when it is started with
+Run's ctx already done, on the failure path and on the success path alike. -/
+theorem run_statements_do_not_depend_on_run_ctx :
+    Shape.errPath runMain runOnErr = Shape.modelRunErrCtxDone ∧
+    Shape.okPath runMain = Shape.modelRunOkCtxDone ++ Shape.modelRotStop ∧
+    runOnErr.head? = some .closeReady ∧ Shape.modelRunErrCtxDone.contains .closeReady = true ∧
+    Shape.modelRunErrCtxDone = Shape.modelRunErr ∧ Shape.modelRunOkCtxDone = Shape.modelRunOk := by
+  decide
+
+/-- **Why `close(readyCh)` must not depend on Run's context** — the class of change "return without
+signalling readiness when the initial fetch fails during a shutdown".  `stepSkip` is the repaired code
+except that a failed initial fetch found with Run's ctx done goes straight to `Unlock()`; with the ctx
+alive it IS the repaired code.  Under it the state after `GetX509SVID`, `Run`, (ctx ends), issuer error,
+`Run` returns is reachable, and from it NO continuation — more callers, cancellations, a second `Run`
+(`runLoser`), anything — ever closes `readyCh` or lets that `GetX509SVID` return, although the initial
+fetch has finished and `Run` has returned.  The same labels in the code as it is close `readyCh`. -/
+theorem skipping_close_when_ctx_done_deadlocks :
+    (∀ s l, s.runCtx = false → stepSkip s l = step .fixed s l) ∧
+    ReachSkip init skipState ∧ skipState.init = some false ∧ skipState.run = .retErr ∧
+    (∀ t, ReachSkip skipState t → t.run = .retErr ∧ t.ready = false ∧ t.cons[0]? = some .gCall) ∧
+    (∃ u, Reach .fixed init u ∧ u = { skipState with ready := true }) := by
+  have hreach : ReachSkip init skipState :=
+    .tail .run (.tail (.reply false) (.tail .cancelRun (.tail .run (.tail .run (.tail .run (.tail .callRun
+      (.tail .callGet (.refl _) rfl) rfl) rfl) rfl) rfl) rfl) rfl) rfl
+  refine ⟨stepSkip_eq_of_ctx_alive, hreach, rfl, rfl, ?_, ?_⟩
+  · intro t h
+    have key : SkipStuck t := by
+      induction h with
+      | refl => exact ⟨rfl, rfl, rfl⟩
+      | tail l _ hs ih => exact skipStuck_step ih hs
+    exact ⟨key.run, key.notReady, key.get⟩
+  · exact ⟨_, .tail .run (.tail .run (.tail (.reply false) (.tail .cancelRun (.tail .run (.tail .run (.tail .run
+      (.tail .callRun (.tail .callGet (.refl _) rfl) rfl) rfl) rfl) rfl) rfl) rfl) rfl) rfl, rfl⟩
 
 /-! ## soundness of the correspondence machinery -/
 
